@@ -206,6 +206,13 @@ class Run:
             if len([x for x in self.samples if x["kind"] == kind]) < 2:
                 self.samples.append({"kind": kind, "history": h})
 
+    def clear_after_setup(self):
+        """C17: every vector starts from a cleared dirty set, so that a row the judged operation fails to mark is
+        not hidden by the marks the setup history left behind"""
+        if "C17" in self.plan.get("props", []):
+            return [{"op": "cleardirty", "p": [], "s": [], "pr": False, "wm": []}]
+        return []
+
     def add_vector_seq(self, job, vec, idx, ports):
         """a multi-step sequence (MCSeq): setup, then every event logged and judged"""
         for port, every in ports.items():
@@ -214,7 +221,7 @@ class Run:
             evs = [dict(e, port=("api" if e["op"] in ("resize", "display", "cleardirty") else port)) for e in vec["evs"]]
             for disp in ([False, True] if job.get("disp") and port == "api" else [False]):
                 h = {"id": "%s-v%d-%s%s" % (job["model"], idx, port, "-d" if disp else ""), "sid": "", "cmp": "", "C": vec["C"], "L": vec["L"],
-                     "scr": True, "utf8": True, "dispsetup": disp, "setup": vec["setup"], "evs": evs}
+                     "scr": True, "utf8": True, "dispsetup": disp, "setup": vec["setup"] + self.clear_after_setup(), "evs": evs}
                 self.put(h, "vector-" + job["model"])
 
     def add_vector_rec(self, job, vec, idx, ports):
@@ -285,7 +292,7 @@ class Run:
                     ev["op"] = al[(idx // every) % len(al)]
                 h = {"id": "%s-v%d-%s%s" % (job["model"], idx, port, "-d" if disp else ""), "sid": "", "cmp": "",
                      "C": vec["C"], "L": vec["L"], "scr": True, "utf8": True, "dispsetup": disp,
-                     "setup": vec["setup"], "evs": [ev] + ([{"op": "display", "p": [], "s": [], "pr": False, "port": "api"}] if job.get("display_after") else [])}
+                     "setup": vec["setup"] + self.clear_after_setup(), "evs": [ev] + ([{"op": "display", "p": [], "s": [], "pr": False, "port": "api"}] if job.get("display_after") else [])}
                 self.put(h, "vector-" + job["model"])
 
     def run_gen(self, job):
